@@ -1182,3 +1182,28 @@ func (c *Ctx) globalStructTable(e *an.Expr) ([]*an.Expr, bool) {
 	}
 	return out, true
 }
+
+// isLoopFlagAtom reports whether an atom tests a boolean that is carried from
+// one loop iteration to the next under the given name: a loop-header phi (a
+// local variable), or a load of a like-named field / local variable that is
+// stored inside the loop (state kept in a struct).
+func isLoopFlagAtom(a an.PathAtom, name string) bool {
+	if a.Cond.Op == an.OpLoop && strings.Contains(a.Cond.String(), name) {
+		return true
+	}
+	if a.If == nil {
+		return false
+	}
+	ld, ok := a.If.Cond.(*ssa.UnOp)
+	if !ok || ld.Op != token.MUL {
+		return false
+	}
+	switch x := ld.X.(type) {
+	case *ssa.FieldAddr:
+		_, _, f := an.FieldAddrName(x)
+		return f == name
+	case *ssa.Alloc:
+		return x.Comment == name
+	}
+	return false
+}
